@@ -12,18 +12,32 @@ RULE = ("Case = n in 30..300 true events with irregular gaps in [0.5, 10] s rege
         "drift in [-100, 100] ppm incl. 0 and both bounds, offset in [-600, 600] s incl. bounds, 0..5 events removed on "
         "each side at any position (ends and runs favoured), jitter amplitude J in [0, 0.1] ms (uniform, +-J, or the "
         "adversarial sign(t - mean) pattern), linear or interpolating mode, optionally the last gap re-drawn so that "
-        "max-min of both series is an exact integer. tsb = (1+d)*tsa + b + jitter. Oracle (ground truth of the "
+        "max-min of both series is an exact integer; one case in twelve is drawn inside the regime the second "
+        "assignment exists for (270..300 events, gaps 7-10 s or 8-10 s with a fifth short, |drift| 85..100 ppm so that "
+        "|drift| x duration exceeds two bins, jitter >= 0.02 ms, three in four interpolating, two in three in the "
+        "default call form). Call form drawn per case: return_indices False (default, returns (f, drift)) or True "
+        "(returns (f, drift, ia, ib)); tbin, return_indices=False, linear=False each left out or passed explicitly "
+        "with the documented default value; options as keywords or positionally; inputs as fresh arrays, read-only "
+        "arrays or strided views. A return_indices=False case also calls the True form with otherwise identical "
+        "arguments: it supplies the pairs and the matched span, both results are validated, and the two maps must "
+        "agree within 1 ms at the held-out times (documented as one fit with or without the indices). "
+        "tsb = (1+d)*tsa + b + jitter. Oracle (ground truth of the "
         "generator): every returned index pair is the same true event (exact); returned pairs / events present on both "
         "sides >= 0.95; |f(t) - ((1+d)t + b)| <= 1 ms at held-out times inside the matched span (events removed from "
-        "side A, gap midpoints, random times); |reported drift - d| <= J*sum|t-mean|/sum(t-mean)^2 + 0.01 ppm on the "
+        "either side, gap midpoints over the train and the three at each end, random times); |reported drift - d| <= J*sum|t-mean|/sum(t-mean)^2 + 0.01 ppm on the "
         "returned pairs (the deterministic bound of a least-squares slope under |jitter| <= J); in linear mode f is "
-        "affine (second difference ~ 0). Non-trivial = events missing on both sides AND |drift| > 10 ppm. "
+        "affine (second difference ~ 0); the input arrays are unchanged after the call (callers go on using them). "
+        "Non-trivial = events missing on both sides AND |drift| > 10 ppm. "
         "Distinct = distinct case hash.")
 ASSUMPTIONS = ["'irregular spacing' is read as gaps that vary over the range: nearly periodic trains (all gaps within a "
                "few 0.1 s bins of each other; the narrowest generated class is a band 1 s wide) are not generated - with "
                "an arbitrary offset and missing end events their correspondence is not identifiable (scratch runs: the "
                "unchanged code returns shifted pairs for 1-50 % of trains whose gaps all lie within 0.2 s)",
-               "default tbin=0.1 only; inputs are float64, sorted, one dimensional",
+               "tbin = 0.1 only (left at its default or passed explicitly); inputs are float64 numpy arrays, sorted, one "
+               "dimensional (writeable, read-only or strided). Python lists are not generated: the docstring asks for "
+               "vectors, every caller passes arrays and the unchanged code reads tsa.shape (AttributeError on a list)",
+               "return_indices=False results are judged inside the matched span reported by the return_indices=True call "
+               "on the same input (the two forms are documented as the same fit)",
                "held-out times lie inside the span of the returned pairs (no extrapolation claim)",
                "the drift tolerance assumes the reported drift is a least-squares slope over the returned pairs"]
 BUDGET = {"quick": 12000, "thorough": 400000}
